@@ -32,8 +32,8 @@ package c15
 //     The package has no slideMaster/slideLayout/theme parts (structure readers do not need them;
 //     PowerPoint itself would ask to repair such a file).
 //   - HTML: the whole list (all depths) is printed with the kind of the ROOT <ul>/<ol>
-//     (HTMLNestedKindFollowsRoot). Rows are printed with one Markdown cell per <td>/<th>, colspan
-//     and rowspan are not expanded. HTML forbids a rowspan leaving its row group, so if a first-row
+//     (HTMLNestedKindFollowsRoot). Before fix 72cc329 rows were printed with one Markdown cell
+//     per <td>/<th> (colspan and rowspan not expanded); now the table's grid is. HTML forbids a rowspan leaving its row group, so if a first-row
 //     cell has RowSpan>1 all rows go into <tbody> (first row still <th>), otherwise row 0 is <thead>
 //     (the default spelling; Block.Head chooses others, see Head and htmlTable).
 
